@@ -237,8 +237,10 @@ def corpus_cases(prop):
 def footprint(gate, cmd):
     kind = cmd.split(":")[0]
     if gate == "cmd.begin":
-        if kind in ("read", "compact"):
+        if kind == "read":
             return {"rc": "C", "ep": "R"}
+        if kind == "compact":
+            return {"cat": "R"}     # clones the table map; the pin comes after the table lock
         if kind == "vacuum":
             return {"rc": "R", "ep": "R", "pend": "W", "pool": "W"}
         if kind == "drop":
@@ -252,7 +254,7 @@ def footprint(gate, cmd):
         return {"txn.pinned": {"pool": "R"}, "rd.open": {"disk": "R", "rc": "C"},
                 "rd.batch": {"disk": "R", "rc": "C"}}.get(gate, {"*": "W"})
     if kind == "compact":
-        return {"cp.pinned": {"pool": "R", "disk": "W", "rid": "W", "tl": "W"},
+        return {"cp.pass.begin": {"rc": "C", "ep": "R", "pool": "R", "disk": "W", "rid": "W", "tl": "W"},
                 "vm.commit.begin": {"ep": "W", "pool": "W", "pend": "W", "man": "W"},
                 "vm.committed": {"rc": "C", "tl": "W"}}.get(gate, {"*": "W"})
     if kind == "vacuum":
@@ -339,10 +341,10 @@ def exhaustive(ck, binary, driver, template, limit, on_result, reduce=True):
 
 EXHAUSTIVE_TEMPLATES = [
     # one reader, one compaction pass, one vacuum pass over two row-sets (coarser gating)
-    "(case e1 (gate cmd.begin txn.pinned vm.commit.begin vm.committed cp.pinned vac.find vac.unlinked rd.open rd.batch)"
+    "(case e1 (gate cmd.begin txn.lock.begin txn.pinned vm.commit.begin vm.committed cp.pass.begin vac.find vac.unlinked rd.open rd.batch)"
     " (setup create:t1 ins:t1:1+2 ins:t1:3) (actors (read:t1:4) (compact) (vacuum)) (sched ) (rng 0) (sticky 0) (script ))",
     # reader vs DROP TABLE vs vacuum
-    "(case e2 (gate cmd.begin txn.pinned vm.commit.begin vm.committed ddl.drop.applied vac.find vac.unlinked rd.open rd.batch)"
+    "(case e2 (gate cmd.begin txn.lock.begin txn.pinned vm.commit.begin vm.committed ddl.drop.applied vac.find vac.unlinked rd.open rd.batch)"
     " (setup create:t1 ins:t1:1+2) (actors (read:t1:4) (drop:t1) (vacuum)) (sched ) (rng 0) (sticky 0) (script ))",
 ]
 
